@@ -162,3 +162,137 @@ Fixpoint run_for_o {S A B : Type} (body : S -> A -> option (list B * S * ctl)) (
       end
     end
   end.
+
+(* ------------------------------------------------------------------------------------------ *)
+(* Second extension of tie C (classes as records, any()/all() over mutable objects, frozenset,
+   nested `for`, calls of generated functions that return a res). *)
+
+(* `x = f(..) ; rest` where f is a generated function with a res result *)
+Definition res_bind {A B : Type} (r : res A) (k : A -> res B) : res B :=
+  match r with
+  | RDone a => k a
+  | RRaise e => RRaise e
+  | RFuel => RFuel
+  | RSkip => RSkip
+  end.
+
+(* a `for` nested in the body of a generator's loop: what it yielded and the final values of its
+   variables.  The body says whether to go on (false = `break`). *)
+Fixpoint sub_for {S A B : Type} (body : S -> A -> list B * S * bool) (s : S) (xs : list A)
+  : list B * S :=
+  match xs with
+  | [] => ([], s)
+  | x :: r =>
+    let '(out, s', go) := body s x in
+    if go then let '(l, s'') := sub_for body s' r in (out ++ l, s'') else (out, s')
+  end.
+
+(* xs[i] = x  (an index out of range leaves the list as it is: see py_index) *)
+Fixpoint list_set_nat {A : Type} (l : list A) (n : nat) (x : A) : list A :=
+  match l, n with
+  | [], _ => []
+  | _ :: r, O => x :: r
+  | y :: r, Datatypes.S k => y :: list_set_nat r k x
+  end.
+Definition py_set_index {A : Type} (l : list A) (i : Z) (x : A) : list A :=
+  let n := Z.of_nat (length l) in
+  let j := if i <? 0 then n + i else i in
+  if (0 <=? j) && (j <? n) then list_set_nat l (Z.to_nat j) x else l.
+
+(* any(x.m(..) for x in xs) where the method m updates x and returns a bool: m runs on the items in
+   order, up to and including the first one for which it returns True (short circuit) *)
+Fixpoint any_mut {S : Type} (m : S -> S * bool) (xs : list S) : list S * bool :=
+  match xs with
+  | [] => ([], false)
+  | x :: r =>
+    let '(x', b) := m x in
+    if b then (x' :: r, true) else let '(r', b') := any_mut m r in (x' :: r', b')
+  end.
+
+(* any(xs[i].m(..) for i in idxs) *)
+Fixpoint any_mut_at {S : Type} (d : S) (m : S -> S * bool) (xs : list S) (idxs : list Z) : list S * bool :=
+  match idxs with
+  | [] => (xs, false)
+  | i :: r =>
+    let '(x', b) := m (py_index d xs i) in
+    let xs' := py_set_index xs i x' in
+    if b then (xs', true) else any_mut_at d m xs' r
+  end.
+
+(* max(..) / min(..) of a non-empty sequence of ints, left to right; on an empty sequence Python
+   raises ValueError: the value 0 stands for that (the generated definitions describe the
+   executions that do not raise, as for py_index) *)
+Definition py_max (l : list Z) : Z := match l with [] => 0 | a :: r => fold_left Z.max r a end.
+Definition py_min (l : list Z) : Z := match l with [] => 0 | a :: r => fold_left Z.min r a end.
+
+(* enumerate(xs) *)
+Definition py_enumerate {A : Type} (l : list A) : list (Z * A) := combine (zrange (Z.of_nat (length l))) l.
+
+(* frozenset[int]: TRUSTED READING — a frozenset of ints is the ascending list of its distinct
+   members, and iterating it visits them in that order.  (CPython iterates the hash table in slot
+   order; for non-negative ints all smaller than the table size — in particular whenever every
+   member is < 8, or the set is range(n) — that is ascending order.) *)
+Fixpoint fs_insert (x : Z) (l : list Z) : list Z :=
+  match l with
+  | [] => [x]
+  | y :: r => if x <? y then x :: l else if x =? y then l else y :: fs_insert x r
+  end.
+Definition fs_of_list (l : list Z) : list Z := fold_left (fun acc x => fs_insert x acc) l [].
+
+(* ------------------------------------------------------------------------------------------ *)
+(* Dictionaries: a dict is the list of its (key, value) pairs in insertion order; assigning to a
+   key that is present keeps the key object and its position and replaces the value.  [eqb] is
+   `==` on keys (hashing is not modelled). *)
+Definition opt_eqb {A : Type} (eqb : A -> A -> bool) (a b : option A) : bool :=
+  match a, b with Some x, Some y => eqb x y | None, None => true | _, _ => false end.
+
+Fixpoint dict_set {K V : Type} (eqb : K -> K -> bool) (k : K) (v : V) (d : list (K * V)) : list (K * V) :=
+  match d with
+  | [] => [(k, v)]
+  | (k', v') :: r => if eqb k k' then (k', v) :: r else (k', v') :: dict_set eqb k v r
+  end.
+
+(* {fk x: fv x for x in l} *)
+Definition dict_of {K V A : Type} (eqb : K -> K -> bool) (fk : A -> K) (fv : A -> V) (l : list A) : list (K * V) :=
+  fold_left (fun d x => dict_set eqb (fk x) (fv x) d) l [].
+
+(* d[k]; a missing key (KeyError) gives the default: see py_index *)
+Fixpoint dict_get {K V : Type} (eqb : K -> K -> bool) (dflt : V) (k : K) (d : list (K * V)) : V :=
+  match d with
+  | [] => dflt
+  | (k', v) :: r => if eqb k k' then v else dict_get eqb dflt k r
+  end.
+
+Definition dict_has {K V : Type} (eqb : K -> K -> bool) (k : K) (d : list (K * V)) : bool :=
+  existsb (fun kv => eqb k (fst kv)) d.
+
+(* d1.keys() & d2.keys(): a SET; iterating it visits the common keys in an order Python does not
+   specify.  TRUSTED READING: the insertion order of d1 (the order the models use). *)
+Definition keys_inter {K V W : Type} (eqb : K -> K -> bool) (d1 : list (K * V)) (d2 : list (K * W)) : list K :=
+  filter (fun k => dict_has eqb k d2) (map fst d1).
+
+(* a non-negative counter held as N, incremented by an int *)
+Definition N_plus_Z (n : N) (z : Z) : N := Z.to_N (Z.of_N n + z).
+
+(* a generator's `for` whose body calls a generated function with a res result: an abnormal result
+   of the body is the result of the loop *)
+Fixpoint run_for_r {S A B : Type} (body : S -> A -> res (list B * S * ctl)) (post : S -> list B)
+         (s : S) (xs : list A) : res (list B) :=
+  match xs with
+  | [] => RDone (post s)
+  | x :: r =>
+    match body s x with
+    | RDone (out, s', c) =>
+      match c with
+      | Cont => match run_for_r body post s' r with
+                | RDone l => RDone (out ++ l)
+                | e => e
+                end
+      | Brk => RDone (out ++ post s')
+      | Ret => RDone out
+      end
+    | RRaise e => RRaise e
+    | RFuel => RFuel
+    | RSkip => RSkip
+    end
+  end.
